@@ -21,6 +21,7 @@ MANIFEST = dict(
     ref='DESIGN.md §3 C01')
 RULE = ('type-directed: a nested target (dict/OrderedDict/Counter/dict subclasses with __missing__, list, tuple, '
         'namedtuples, attribute objects incl. __slots__, raising/returning properties, __getattr__ fallbacks, '
+        'properties / __getattr__ written with glom (re-entrant call on a raw dict, failing or not), '
         'scalars; shared sub-objects and cycles through mutable containers; plain or access-logging classes) is '
         'generated as a heap graph; a history of 1-3 glom calls and 0-2 register calls (get = getattr / getitem / '
         '_get_sequence_item / private-table lookup / raising handler / False / no get keyword, on a class of the '
@@ -161,6 +162,35 @@ class FbVal:
         _throw(ValueError(name))
 
 
+def _nested_glom(raw, name):
+    """an accessor written with glom: a re-entrant glom call (default registry) on a raw dict"""
+    import glom
+    try:
+        return glom.glom(raw, glom.Path(name))
+    except glom.GlomError as e:
+        RAISED.append(e)
+        raise
+
+
+class PropG:
+    """attributes are views on a raw dict, read with glom (a nested call that may fail)"""
+    __getattribute__ = _log_attr
+    pg = property(lambda self: _nested_glom(object.__getattribute__(self, '_tab'), 'pg'))
+    pb = property(lambda self: _throw(_glom_exc('BadSpec')('catalogue property')))
+
+
+class FbG:
+    __getattribute__ = _log_attr
+
+    def __getattr__(self, name):
+        return _nested_glom(object.__getattribute__(self, '_tab'), name)
+
+
+def _glom_exc(name):
+    import glom
+    return getattr(glom, name)
+
+
 class DMissEcho(dict):
     __getattribute__ = _log_attr
     __getitem__ = _logging_getitem(dict)
@@ -205,6 +235,8 @@ DECL = {
                        ['pc', {'const': {'i': 7}}], ['ps', {'slot': 'a'}]]},
     'PropFb': {'fallback': {'const': {'s': 'fb'}}},
     'Fb': {'fallback': {'table': '_tab'}},
+    'PropG': {'props': [['pg', {'glomtab': '_tab'}], ['pb', {'raises': 'BadSpec'}]]},
+    'FbG': {'fallback': {'glomtab': '_tab'}},
     'FbVal': {'fallback': {'raises': 'ValueError'}},
     'DMissEcho': {'missing': 'echo'},
     'DMissVal': {'missing': {'raises': 'ValueError'}},
@@ -213,7 +245,7 @@ DECL = {
 }
 LOGA_FUNCS = (_log_attr, pyobjs._log_attr, pyobjs.LObj.__getattribute__)
 
-NEW_CLASSES = [Rec, Row, Row2, Mix, RowM, Pt, Pt1, PtN, Slots, SlotsFb, Prop, PropFb, Fb, FbVal,
+NEW_CLASSES = [Rec, Row, Row2, Mix, RowM, Pt, Pt1, PtN, Slots, SlotsFb, Prop, PropFb, Fb, FbVal, PropG, FbG,
                DMissEcho, DMissVal, DMissKey, Counter, CounterL]
 CLASSES = dict(pyobjs.CLASSES)
 CLASSES.update({c.__name__: c for c in NEW_CLASSES})
@@ -237,7 +269,7 @@ def layout_of(cls):
 
 
 LAYOUT = {n: layout_of(c) for n, c in CLASSES.items()}
-TAB_CLASSES = ['Rec', 'Row', 'Row2', 'RowM', 'Fb', 'PropFb']     # instances may carry a private table `_tab`
+TAB_CLASSES = ['Rec', 'Row', 'Row2', 'RowM', 'Fb', 'PropFb', 'PropG', 'FbG']     # instances may carry a private table `_tab`
 
 
 def sample_of(cls):
@@ -353,7 +385,7 @@ class HeapGen:
         if lay == 'inst':
             return r.choice(['Obj', 'Obj', 'Obj2'] +
                             (['Rec', 'Row', 'Row', 'Row2', 'RowM', 'Slots', 'SlotsFb', 'Prop', 'PropFb',
-                              'Fb', 'FbVal'] if f else []))
+                              'Fb', 'FbVal', 'PropG', 'FbG'] if f else []))
         if lay == 'tuple' and f:
             return r.choice(['tuple', 'tuple', 'Pt', 'Pt1', 'PtN'])
         return lay
@@ -402,6 +434,8 @@ class HeapGen:
                 tcell = {'k': 'dict', 'c': 'dict', 'v': []}
                 self.heap.append(tcell)
                 tkeys = r.sample(NAMES, r.choice([1, 2, 3]))
+                if cname == 'PropG' and r.random() < 0.6:
+                    tkeys.append('pg')
                 tcell['v'] = [[jval(k), self.node(depth + 1)] for k in tkeys]
                 self.closed.append(ta)
                 cell['v'].append(['_tab', {'r': ta}])
@@ -478,9 +512,11 @@ def children(heap, val, hn):
         tab = attrs.get('_tab')
         if tab is not None and 'r' in tab:
             entries = [(k, v) for k, v in heap[tab['r']]['v']]
-            if cell['c'] == 'Fb':
+            if cell['c'] in ('Fb', 'FbG'):
                 out += [('attr', k, v) for k, v in entries if k['s'] not in attrs]
-            if hn == {'table': '_tab'}:
+            if cell['c'] == 'PropG':
+                out += [('attr', k, v) for k, v in entries if k.get('s') == 'pg']
+            if hn in ({'table': '_tab'}, {'glomtab': '_tab'}):
                 out += [('tab', k, v) for k, v in entries]
     return out
 
@@ -493,7 +529,7 @@ def p_valid(kind, key, hn):
         return kind in ('key', 'idx')
     if hn == 'seq':
         return kind == 'idx'
-    if hn == {'table': '_tab'}:
+    if hn in ({'table': '_tab'}, {'glomtab': '_tab'}):
         return kind == 'tab'
     return False
 
@@ -538,7 +574,7 @@ def seg_text(kind, key):
 
 BAD_SEGS = [{'s': '*'}, {'s': '**'}, {'s': 'zz'}, {'s': '99'}, {'s': '-99'}, {'s': 'x'}, {'i': 99}, {'i': -99}, {'s': ''},
             None, {'b': True}, {'s': '1.5'}, {'s': '+1'}, {'s': '0'}, {'i': 0}, {'s': '_tab'}, {'s': 'pa'},
-            {'s': 'pv'}, {'s': 'pc'}, {'s': 'ps'}, {'b': False}]
+            {'s': 'pv'}, {'s': 'pc'}, {'s': 'ps'}, {'b': False}, {'s': 'pg'}, {'s': 'pb'}, {'s': 'pg'}]
 CLS_ATTRS = ['__class__', '__doc__', 'keys', 'items', 'get', 'append', 'count', 'index', 'upper', 'real',
              '__len__', '__dict__', 'helper', '_fields', '_asdict', '__missing__', 'most_common', '__hash__',
              '__slots__', '__module__', '__getattr__', 'copy', 'bit_length', 'denominator', 'imag', '__init__',
@@ -711,9 +747,10 @@ def gen_steps(rng, heap, root, maxlen, mirror, via=None):
 
 
 HANDLERS_INST = ['getattr', {'table': '_tab'}, {'table': '_tab'}, {'table': '_tab'}, 'getitem',
+                 {'glomtab': '_tab'}, {'glomtab': '_tab'}, {'raises': 'BadSpec'}, {'raises': 'GlomError'},
                  {'raises': 'KeyError'}, {'raises': 'RuntimeError'}, {'raises': 'Boom'}, {'raises': 'BoomKey'},
                  {'raises': 'StopIteration'}, False, None]
-HANDLERS_DICT = ['getattr', 'getattr', 'seq', 'getitem', {'raises': 'ZeroDivisionError'},
+HANDLERS_DICT = ['getattr', 'getattr', 'seq', 'getitem', {'raises': 'ZeroDivisionError'}, {'raises': 'BadSpec'},
                  {'raises': 'IndexError'}, False, None]
 HANDLERS_SEQ = ['getattr', 'getattr', 'getitem', 'seq', {'raises': 'OSError'}, {'raises': 'LookupError'}, False, None]
 
@@ -1038,8 +1075,11 @@ def handler_fn(h):
     if 'table' in h:
         attr = h['table']
         return lambda obj, name: getattr(obj, attr)[name]
+    if 'glomtab' in h:
+        attr = h['glomtab']
+        return lambda obj, name: _nested_glom(getattr(obj, attr), name)
     if 'raises' in h:
-        cls = EXCS[h['raises']]
+        cls = EXCS.get(h['raises']) or _glom_exc(h['raises'])
 
         def raiser(obj, name):
             _throw(cls(name))
